@@ -18,19 +18,33 @@ The byte constants are the ones `tools/extract_proto.py` read from `/repo` (`Gen
 * Every exception the code can raise on a datagram is an explicit `Res.err`: `data[4] += 1` with
   `data[4] = 255` (`ValueError`), `data[12]`/`data[14]` of a ping shorter than 15 octets
   (`IndexError`), `port.to_bytes(2, "little")` with a port â‰¥ 65536 (`OverflowError`, after the accept
-  was already sent), and the stubbed SNMP call.
+  was already sent), the stubbed SNMP call, and `"â€¦ %s:%s" % address` with a peer address that is not a
+  2-tuple (`TypeError`, after the accept was sent: the log message of the two start-up handlers is
+  formatted eagerly).
+* A peer address is what the transport hands over: `(ip, port)`, or a longer tuple `(ip, port, *ext)` â€”
+  asyncio reports AF_INET6 peers as `(host, port, flowinfo, scope_id)`.  The storage compares the whole
+  tuple: peers that differ only in `ext` are different peers.
 -/
 
 namespace Dmr.P2p
 open Dmr Dmr.Storage
 
-/-- `(ip, port)`; the ip is a Python `str` kept as code points -/
+/-- `(ip, port, *ext)`; the ip is a Python `str` kept as code points; `ext = []` for the usual 2-tuple,
+`[flowinfo, scope_id]` for an AF_INET6 peer -/
 structure Addr where
   ip : List Nat
   port : Nat
+  ext : List Nat := []
   deriving DecidableEq, Repr, Inhabited
 
-def Addr.val (a : Addr) : Val := .addr a.ip a.port
+/-- the Python value of the address tuple -/
+def Addr.val (a : Addr) : Val :=
+  match a.ext with
+  | [] => .addr a.ip a.port
+  | e :: t => .tupN a.ip (a.port :: e :: t)
+
+/-- `"%s:%s" % address` needs exactly two elements -/
+def Addr.isPair (a : Addr) : Bool := a.ext.isEmpty
 
 /-- handler configuration: `p2p_port`, `rdac_port` -/
 structure Cfg where
@@ -63,7 +77,7 @@ structure Out where
   deriving DecidableEq, Repr, Inhabited
 
 inductive Err
-  | valueError | indexError | overflowError | snmpError
+  | valueError | indexError | overflowError | snmpError | typeError
   deriving DecidableEq, Repr, Inhabited
 
 inductive Res
@@ -166,6 +180,8 @@ def handleRdacRequest (cfg : Cfg) (s : Store) (a : Addr) (data : Bytes) : Store 
       | some d2 =>
         let accept := d2 ++ [0x01]
         let o1 : Out := { kind := .rdacAccept, data := accept, dest := r.addressOut }
+        -- self.log_debug("RDAC Accept for %s:%s" % address)
+        if a.isPair = false then (s, [o1], .err .typeError) else
         match redirectPacket accept cfg.rdacPort with
         | .error e => (s, [o1], .err e)
         | .ok red => (s, [o1, { kind := .rdacRedirect, data := red, dest := r.addressOut }], .ok)
@@ -173,6 +189,7 @@ def handleRdacRequest (cfg : Cfg) (s : Store) (a : Addr) (data : Bytes) : Store 
 /-- `rpt.address_in[1]` of a record whose `address_in` equals the requester's address tuple -/
 def portOf : Val â†’ Option Nat
   | .addr _ p => some p
+  | .tupN _ (p :: _) => some p
   | _ => Option.none
 
 /-- `handle_dmr_request` -/
@@ -189,6 +206,8 @@ def handleDmrRequest (cfg : Cfg) (s : Store) (a : Addr) (data : Bytes) : Store Ã
       | some d2 =>
         let accept := d2 ++ [0x01]
         let o1 : Out := { kind := .dmrAccept, data := accept, dest := responseAddress }
+        -- self.log_debug("DMR Accept for %s:%s" % address)
+        if a.isPair = false then (s, [o1], .err .typeError) else
         match portOf r.addressIn with
         | Option.none => (s, [o1], .err .indexError)     -- unreachable: address_in == the address tuple
         | some port =>
